@@ -14,6 +14,7 @@ import re
 import engine
 import scen
 import runcheck
+import steptie
 
 engine.use_repo()
 
@@ -178,7 +179,9 @@ def eval_case(case):
     var, strat = full["variant"], full["strategy"]
     rng = random.Random("v:" + full["vseed"] + var)
     viol, stats = [], [strat, var]
-    r1 = scen.run_real(full, timeout_s=60)
+    # greedy / balanced: the isolation theorems are about the step model, which is tied to the real step here
+    with steptie.tie_for(full) as tie:
+        r1 = scen.run_real(full, timeout_s=60)
     a = outputs(r1)
     nontrivial = bool(r1.get("step_i"))
     if var == "same":
@@ -252,5 +255,10 @@ def eval_case(case):
             d = first_diff(cut(o1), cut(o2))
             if d:
                 viol.append(("isolation", "C16:added_connector_changes_existing:%s" % strat, d[:300]))
-    return {"lines": [], "impl": [], "violations": viol, "nontrivial": nontrivial, "stats": stats,
-            "replay_case": full}
+    tied = not r1.get("timeout")
+    return {"lines": tie.lines if tied else [], "impl": tie.impl if tied else [], "violations": viol,
+            "nontrivial": nontrivial, "stats": stats, "replay_case": full}
+
+
+def compare(case, impl, model):
+    return steptie.compare(impl, model)[1]
